@@ -765,3 +765,63 @@ Definition init_sys (cfg : list (nat * nat)) : sys :=
   {| mem := init_shm cfg; snd := empty_buf; infb := false; pend := []; rcv := empty_buf; oth := [] |}.
 
 Definition free_counts (m : shm) : list nat := map (@length nat) (free m).
+
+(* ------------------------------------------------------------------------------------------ *)
+(* both directions of one stream pair (needed for Stream.ReleaseReadAndReuse, which swaps the   *)
+(* receive buffer of a stream with ITS OWN send buffer, i.e. with the writer side of the other  *)
+(* direction)                                                                                   *)
+(* ------------------------------------------------------------------------------------------ *)
+(* direction false: stream A writes, stream B reads; direction true: B writes, A reads *)
+Record half := { h_snd : lbuf; h_infb : bool; h_pend : list pitem; h_rcv : lbuf }.
+Record dsys := { d_mem : shm; d_0 : half; d_1 : half; d_oth : list slice }.
+
+Definition dhalf (D : dsys) (d : bool) : half := if d then d_1 D else d_0 D.
+Definition dview (D : dsys) (d : bool) : sys :=
+  let h := dhalf D d in
+  {| mem := d_mem D; snd := h_snd h; infb := h_infb h; pend := h_pend h; rcv := h_rcv h; oth := d_oth D |}.
+Definition half_of (s : sys) : half := {| h_snd := snd s; h_infb := infb s; h_pend := pend s; h_rcv := rcv s |}.
+Definition dput (D : dsys) (d : bool) (s : sys) (other : half) : dsys :=
+  if d then {| d_mem := mem s; d_0 := other; d_1 := half_of s; d_oth := oth s |}
+  else {| d_mem := mem s; d_0 := half_of s; d_1 := other; d_oth := oth s |}.
+
+Definition is_fallback (p : pitem) : bool := match p with PFallback _ => true | PRoot _ => false end.
+Definition with_infb (h : half) (b : bool) : half :=
+  {| h_snd := h_snd h; h_infb := b; h_pend := h_pend h; h_rcv := h_rcv h |}.
+
+(* the swap decision of Stream.ReleaseReadAndReuse; the two conjuncts are switched by what the
+   translator finds in stream.go (Gen/SwitchC06.v), see Proofs/LinkedBufferDuplex.v *)
+Definition swap_cond (need_len0 need_one : bool) (l : lbuf) : bool :=
+  (if need_len0 then (len l =? 0)%Z else true) && (if need_one then length (slices l) =? 1 else true).
+
+Inductive dop :=
+| DOp (d : bool) (o : op)      (* an operation of direction d (writer ops: its writing stream; reader ops: its reading stream) *)
+| DReuse (d : bool).           (* Stream.ReleaseReadAndReuse() on the stream that READS direction d *)
+
+Section Duplex.
+Variables need_len0 need_one : bool.
+
+Definition dstep (D : dsys) (o : dop) : outcome (res * dsys) :=
+  match o with
+  | DOp d o =>
+      let s := dview D d in
+      do (r, s') <- step s o;
+      (* pendingData.moveToWithoutLock sets inFallbackState of the READING stream for every fallback
+         slice it moves: that stream's own sends (the other direction) use the socket from then on *)
+      let movedfb := existsb is_fallback (pend s) && (match pend s' with [] => true | _ => false end) in
+      let other := dhalf D (negb d) in
+      let other' := if movedfb then with_infb other true else other in
+      Ok (r, dput D d s' other')
+  | DReuse d =>
+      let h := dhalf D d in let o := dhalf D (negb d) in
+      let '(m1, l1) := release_reserve (d_mem D) (h_rcv h) in
+      let '(rcv', osnd') := if swap_cond need_len0 need_one l1 then (h_snd o, l1) else (l1, h_snd o) in
+      let h' := {| h_snd := h_snd h; h_infb := h_infb h; h_pend := h_pend h; h_rcv := rcv' |} in
+      let o' := {| h_snd := osnd'; h_infb := h_infb o; h_pend := h_pend o; h_rcv := h_rcv o |} in
+      Ok (RUnit, if d then {| d_mem := m1; d_0 := o'; d_1 := h'; d_oth := d_oth D |}
+                 else {| d_mem := m1; d_0 := h'; d_1 := o'; d_oth := d_oth D |})
+  end.
+End Duplex.
+
+Definition empty_half : half := {| h_snd := empty_buf; h_infb := false; h_pend := []; h_rcv := empty_buf |}.
+Definition init_dsys (cfg : list (nat * nat)) : dsys :=
+  {| d_mem := init_shm cfg; d_0 := empty_half; d_1 := empty_half; d_oth := [] |}.
